@@ -1020,6 +1020,15 @@ def getattr_(E, obj, name):
         _raise('AttributeError', name)
     if isinstance(obj, VExc):
         if name == 'args':
+            if obj.sym and not obj.args:
+                # an exception raised by an opaque callee / a callee contract: its arguments are unknown.  Modelled as one
+                # unknown argument (assumption, listed: such exceptions carry at least one argument, as KeyError(key) from
+                # a namespace lookup does) -- with an empty tuple every ``t.args[0]`` in a handler ended the path with an
+                # IndexError and the code behind it was never examined
+                E.assumptions_used.add('an exception raised by an opaque callee carries at least one argument (args[0] is an unknown value)')
+                if 'args0' not in obj.fields:
+                    obj.fields['args0'] = VO('%s.args0' % obj.uid)
+                return VT([obj.fields['args0']])
             return VT(obj.args)
         if name in obj.fields:
             return obj.fields[name]
